@@ -436,6 +436,22 @@ def run(tier, seed):
         "there; it is not reproduced by this check (needs the real cargo-nextest binary: end-to-end rig)",
     ]
     nontrivial = sum(1 for l in lists if len(l) >= 2) + sum(1 for c in cases if c["raw"] != 0)
+    # end-to-end: leak verdict under signals that arrive while nextest drains the leaked handles
+    try:
+        import e2e, units_e2e as U
+        ok, _msg = U.regen_table()
+        lscs = [dict(u=150, period=20, ta=None, grace=2, leak=2, dur=1.5, hold=6, on_term="exit", sigs=[(2.5, "INT")]),
+                dict(u=150, period=20, ta=None, grace=2, leak=3, dur=0.5, hold=7, on_term="exit", sigs=[(1.5, "TERM")]),
+                dict(u=150, period=20, ta=None, grace=2, leak=2, dur=1.5, hold=6, on_term="exit", sigs=[]),
+                dict(u=150, period=20, ta=None, grace=2, leak=4, dur=1.5, hold=1.5, on_term="exit", sigs=[])]
+        U.check_family(chk, e2e.Rig(), lscs, lambda sc, o: U.oracle_common(sc, o) or U.oracle_leak(sc, o), "c03l")
+    except RuntimeError as ex:
+        chk.violation("broken-obligation", "e2e-build", dict(error=str(ex)[-3000:]), no_input=True)
+    # end-to-end: a test binary that cannot be exec'd at run time (made non-executable after listing)
+    try:
+        stage_unspawnable(chk)
+    except RuntimeError as ex:
+        chk.violation("broken-obligation", "e2e-build", dict(error=str(ex)[-3000:]), no_input=True)
     # end-to-end stage: generated multi-test runs of the real cargo-nextest over the scripted puppet
     # workspace, judged by this property's oracle (lib/e2e_general.py)
     try:
@@ -497,3 +513,38 @@ def replay(path, seed):
         print("impl now:", res, "documented:", want)
         return 0 if got == want else 1
     return 0
+
+
+
+def stage_unspawnable(chk):
+    """C03: execution failure iff the process could not be started. The victim's binary (a private copy)
+    loses its execute permission after the listing phase; with the double-spawn launcher the exec error
+    surfaces as an ordinary failure (known finding F9), without it the result must be exec-fail."""
+    import e2e
+    rig = e2e.Rig()
+    scen = {"bins": {"alpha::t1": {"tests": {"first": {"attempts": [{"sleep": 0.5, "exit": 0}]}}},
+                     "beta::t1": {"tests": {"victim": {"attempts": [{"exit": 0}]}}}}}
+    cfg = '[profile.default]\nretries = 0\nfail-fast = false\ntest-threads = 1\n'
+
+    def act(ctx):
+        os.chmod(ctx["private"]["beta::t1"], 0o644)
+
+    listed = any(f.get("id") == "F9" for f in vlib.known_findings().get("findings", []))
+    for ds in (None, "0"):
+        env = {} if ds is None else {"NEXTEST_DOUBLE_SPAWN": ds}
+        r = rig.run(scen, cfg, private_binaries=["beta::t1"], hooks=[(e2e.tap_has("TestStarted"), act)],
+                    env_extra=env)
+        fin = [e for e in r["tap"] if e["kind"] == "TestFinished" and e["test"][1] == "victim"]
+        kind = fin[0]["statuses"][-1]["result"]["kind"] if fin else None
+        chk.count("unspawnable_runs")
+        rig.cleanup(r)
+        if kind == "exec-fail":
+            continue
+        if ds is None and kind == "fail" and listed:
+            chk.known_finding("F9 test binary cannot be exec'd under the double-spawn launcher: reported FAIL, not EXECFAIL")
+            continue
+        chk.violation("counterexample", "oracle-e2e:unspawnable",
+                      dict(clause=f"the test process could not be started (exec fails with EACCES) but the reported "
+                                  f"result is {kind}, not an execution failure", double_spawn=ds is None,
+                           scenario=scen, stderr_tail=r["stderr"][-1200:]))
+        return
